@@ -170,3 +170,69 @@ Theorem C09_float_inner_never_out_of_fuel :
   forall (is64 : bool) (d : decl) (vs : list validator) (bs : bytes), arb_float_inner is64 d vs bs <> None.
 Proof. exact arb_float_inner_some. Qed.
 Print Assumptions C09_float_inner_never_out_of_fuel.
+
+(* --- floats: the generator yields a valid value for every byte string, in the shapes that are
+   outside the recorded classes (no exclusive bound; `finite` not combined with a single bound) *)
+From NV Require Import Base.Float Lemmas.ArbFloatValid.
+
+(* no validation: plain delegation *)
+Theorem C09_float_no_validation :
+  forall (lib : fnlib) (d : decl) (is64 : bool) (bs : bytes),
+    d_family d = FFloat is64 -> d_validation d = None -> exists v, arb_float lib d bs = OOk v.
+Proof. exact arb_float_no_validation_ok. Qed.
+Print Assumptions C09_float_no_validation.
+
+(* validate(finite) *)
+Theorem C09_float_finite_only :
+  forall (lib : fnlib) (d : decl) (is64 : bool) (bs : bytes),
+    d_family d = FFloat is64 -> d_sans d = [] -> d_validation d = Some (RVStandard [VFinite]) ->
+    exists x, arb_float lib d bs = OOk (VF x) /\ f_is_finite is64 x = true.
+Proof. exact arb_float_finite_ok. Qed.
+Print Assumptions C09_float_finite_only.
+
+(* validate(greater_or_equal = L) / validate(less_or_equal = U): IEEE addition is monotone, an
+   overflow to an infinity still satisfies the bound *)
+Theorem C09_float_lower_inclusive :
+  forall (lib : fnlib) (d : decl) (is64 : bool) (bnd : bound) (bs : bytes),
+    d_family d = FFloat is64 -> d_sans d = [] ->
+    d_validation d = Some (RVStandard [VGreaterOrEqual bnd]) ->
+    f_is_finite is64 (bval d bnd) = true ->
+    exists x, arb_float lib d bs = OOk (VF x) /\ f_ge is64 x (bval d bnd) = true.
+Proof. exact arb_float_lower_incl_ok. Qed.
+Print Assumptions C09_float_lower_inclusive.
+
+Theorem C09_float_upper_inclusive :
+  forall (lib : fnlib) (d : decl) (is64 : bool) (bnd : bound) (bs : bytes),
+    d_family d = FFloat is64 -> d_sans d = [] ->
+    d_validation d = Some (RVStandard [VLessOrEqual bnd]) ->
+    f_is_finite is64 (bval d bnd) = true ->
+    exists x, arb_float lib d bs = OOk (VF x) /\ f_le is64 x (bval d bnd) = true.
+Proof. exact arb_float_upper_incl_ok. Qed.
+Print Assumptions C09_float_upper_inclusive.
+
+(* two inclusive bounds, with or without `finite`, in any order, when the distance of the bounds
+   does not overflow: lower + from0to1 * range is monotone from below and the clamp introduced
+   by the repair (fix: float Arbitrary clamps the scaled value to an inclusive upper bound)
+   bounds it from above; every byte string whose bytes are bytes *)
+Theorem C09_float_two_inclusive :
+  forall (lib : fnlib) (d : decl) (is64 : bool) (vs : list validator) (bl bu : bound) (bs : bytes),
+    d_family d = FFloat is64 -> d_sans d = [] -> d_validation d = Some (RVStandard vs) ->
+    (forall v, In v vs -> v = VFinite \/ v = VGreaterOrEqual bl \/ v = VLessOrEqual bu) ->
+    fboundaries d vs None None =
+      (Some {| fb_val := bval d bl; fb_incl := true |}, Some {| fb_val := bval d bu; fb_incl := true |}) ->
+    bytes_ok bs = true ->
+    f_le is64 (bval d bl) (bval d bu) = true ->
+    f_is_finite is64 (f_sub is64 (bval d bu) (bval d bl)) = true ->
+    exists x, arb_float lib d bs = OOk (VF x) /\
+              f_le is64 (bval d bl) x = true /\ f_le is64 x (bval d bu) = true /\ f_is_finite is64 x = true.
+Proof. exact arb_float_two_incl_finite_ok. Qed.
+Print Assumptions C09_float_two_inclusive.
+
+(* the hypotheses are met: [0.5, 9.5] with finite on f64 *)
+Example C09_float_two_inclusive_nonvacuous :
+  let d := ex_decl (FFloat true) [] [VFinite; VGreaterOrEqual (BLit 4602678819172646912); VLessOrEqual (BLit 4621537642612260864)] in
+  fboundaries d [VFinite; VGreaterOrEqual (BLit 4602678819172646912); VLessOrEqual (BLit 4621537642612260864)] None None =
+    (Some {| fb_val := 4602678819172646912; fb_incl := true |}, Some {| fb_val := 4621537642612260864; fb_incl := true |}) /\
+  f_le true 4602678819172646912 4621537642612260864 = true /\
+  f_is_finite true (f_sub true 4621537642612260864 4602678819172646912) = true.
+Proof. vm_compute. auto. Qed.
